@@ -640,6 +640,9 @@ def run(ctx):
         e = next((e for e in ev if e["cls"] == cls), None)
         if e:
             ctx.sample({"stage": "C", "event": {k: v for k, v in e.items() if k != "id"}})
+    # extension beyond the listed property (never a VIOLATION): the OBJECT IDENTIFIER codec of bits.pem for every OID, spec/Oid.tla
+    from . import ext_oid
+    ctx.run_extension("Oid", ext_oid.stage, ctx)
 
 
 def replay(ctx, path):
